@@ -161,7 +161,7 @@ CHECKS = {
         },
         "runs": [conc("HarnessC08Quick", ["c08-end"]), conc("HarnessC08Seq2", ["c08-end"]), conc("HarnessC08DoubleUnregister", ["c08-double-unreg-end"]),
                  conc("HarnessC08LateCalls", ["c08-late-end"]), conc("HarnessC08BlockedCallback", ["c08-blocked-end"]), conc("HarnessC08BlockingCancel", ["c08-blocking-cancel-end"]),
-                 conc("HarnessC08TwoWatchers", ["c08-two-watchers-end"]), conc("HarnessC08PendingUnregister", ["c08-pending-unreg-end"]), conc("HarnessC08StackError", ["c08-stackerr-end"]),
+                 conc("HarnessC08TwoWatchers", ["c08-two-watchers-end"]), conc("HarnessC08PendingUnregister", ["c08-pending-unreg-end"]), conc("HarnessC08StackError", ["c08-stackerr-end"]), conc("HarnessC08UncomparableSource", ["c08-uncomparable-end"]),
                  {"entry": M + "/sourcewrap.HarnessC20BlankContexts", "pkgs": SW, "must_reach": ["c20-blank-ctx-end", "c20-blank-late-end", "c20-blank-eager-end"], "instrument": [M, M + "/sourcewrap"], "validate": 0},
                  conc("HarnessC08Thorough", ["c08-end"], ["thorough"], maxpaths=3000000)],
         "bounds": {"quick": "2 callers x 1 op, 2 sequential ops, 9-op alphabet, delay on/off; two watchers finishing in either order or concurrently; an unregistration pending (optionally behind a stuck callback) at shutdown; all schedules", "thorough": "2+1 ops; blocked-callback run of 67 updates"},
